@@ -50,6 +50,16 @@ def load_known(pid):
     data = json.load(open(path))
     return [f for f in data.get("findings", []) if pid in f.get("properties", [])]
 
+def _shrink(x, limit=30000):
+    """Keeps replay files bounded: very long strings are cut (the head is what matters for triage)."""
+    if isinstance(x, str):
+        return x if len(x) <= limit else x[:limit] + "...<cut %d chars>" % (len(x) - limit)
+    if isinstance(x, dict):
+        return {k: _shrink(v, limit) for k, v in x.items()}
+    if isinstance(x, (list, tuple)):
+        return [_shrink(v, limit) for v in x]
+    return x
+
 class Check:
     def __init__(self, pid, tier, seed, level="exploration"):
         self.pid, self.tier, self.seed, self.level = pid, tier, seed, level
@@ -84,6 +94,7 @@ class Check:
 
     def violation(self, key, summary, case):
         """Registers an oracle alarm. key: the exact signature used for known-finding matching."""
+        case = _shrink(case)
         f = self.known_keys.get(key)
         if f is None:
             for pre, pf in self.known_prefixes:
